@@ -1195,6 +1195,15 @@ func ruleFilterCmdKeyKeep(w *core.World, r *core.Report) {
 							keepBad, keepPos = "a key is kept without both the prefix rule and the slot rule having accepted it", in.Pos()
 						}
 					}
+					// the kept keys as a list carried round the loop (r7_n2.go): appending to it is the marking
+					if _, el, isApp := keptListAppend(in, loopHead); isApp {
+						n++
+						if !acc {
+							keepBad, keepPos = "a key is kept without both the prefix rule and the slot rule having accepted it", in.Pos()
+						} else if len(el) != 1 || !fromThisIteration(el[0], loopHead) {
+							keepBad, keepPos = "what is put on the list of kept keys must be the one key position judged in this iteration", in.Pos()
+						}
+					}
 				}
 				if p.Closed {
 					iters = append(iters, iter{p, rej, acc})
@@ -1226,12 +1235,9 @@ func ruleFilterCmdKeyKeep(w *core.World, r *core.Report) {
 					break
 				}
 				bt, isB := ph.Type().Underlying().(*types.Basic)
-				if !isB {
-					continue
-				}
 				good, nRej, nAcc := true, 0, 0
 				switch {
-				case bt.Kind() == types.Bool:
+				case isB && bt.Kind() == types.Bool:
 					for _, it := range iters {
 						if !it.rejected {
 							continue
@@ -1244,7 +1250,7 @@ func ruleFilterCmdKeyKeep(w *core.World, r *core.Report) {
 					if good && nRej > 0 && unchangedReturnGuarded(f, loopHead, func(c core.Cmp, val bool) bool { return false }, ph) {
 						okFlag, seenFlag = true, true
 					}
-				case bt.Info()&types.IsInteger != 0:
+				case isB && bt.Info()&types.IsInteger != 0:
 					init := false
 					for i, e := range ph.Edges {
 						if !loopHead.Dominates(loopHead.Preds[i]) && isConstInt(0)(e) {
@@ -1290,6 +1296,17 @@ func ruleFilterCmdKeyKeep(w *core.World, r *core.Report) {
 						} else {
 							why = "the counter of accepted keys is not compared with the number of keys before the command passes unchanged"
 						}
+					}
+				default:
+					// a list of the kept keys: empty before the loop, exactly the accepting iterations append one
+					// element, the rejecting ones leave it alone; its length is compared with the number of keys
+					if _, isSl := ph.Type().Underlying().(*types.Slice); !isSl {
+						continue
+					}
+					if keptListRecordsRejection(f, loopHead, ph, len(iters), func(k int) (rej, acc bool, nx ssa.Value) {
+						return iters[k].rejected, iters[k].accepted, iters[k].p.NextIter(ph)
+					}) {
+						okFlag, seenFlag = true, true
 					}
 				}
 			}
